@@ -74,6 +74,56 @@ def acceptor_reject(triple, messages_after=1):
         raise Violation('%s:reject:not-ended' % PROP, 'provider not stopped after the refusal', case)
 
 
+# ---- one long-lived serving entity ---------------------------------------------------------------------
+def expand_program(program):
+    seq = []
+    for kind, count, triple in program:
+        seq += [(kind, tuple(triple))] * count
+    return seq
+
+
+def acceptor_long_lived(program):
+    """ONE entity answers a long series of associations, one after the other: refused by the application with a
+    triple, served and released, aborted by the peer.  Every one of them ends as if it were the entity's first."""
+    from pynetdicom2 import exceptions, sopclass
+    case = {'kind': 'acceptor-long-lived', 'program': [[k, c, list(t)] for k, c, t in program]}
+    cur = {}
+
+    def on_rq(asce, assoc):
+        if cur['kind'] == 'rj':
+            raise exceptions.AssociationRejectedError(*cur['triple'])
+    ae = svc.make_server({'on_association_request': on_rq}, [sopclass.verification_scp])
+    seq = expand_program(program)
+    try:
+        for n, (kind, triple) in enumerate(seq):
+            cur.update(kind=kind, triple=triple)
+            msgs = [({0x0002: svc.VERIFICATION, 0x0100: 0x0030, 0x0110: 7}, None, 1)]
+            if kind == 'abort':
+                msgs.append({'pdu': {'t': 7, 'r1': 0, 'r2': 0, 'r3': 0, 'source': 0, 'reason': 0}})
+            else:
+                msgs.append('release')
+            acc, fac, exc = fd.run_acceptor(ae, [svc.primary_plan([(1, svc.VERIFICATION)], msgs)])
+            dul = fac.instances[0]
+            kinds = [r['spec'].get('t') for r in dul.sent_pdus()]
+            where = 'association %d of %d on one entity (%d refused by the application before it)' % (
+                n + 1, len(seq), sum(1 for k, _ in seq[:n] if k == 'rj'))
+            if kind == 'rj':
+                got = [(r['spec']['result'], r['spec']['source'], r['spec']['reason']) for r in dul.sent_pdus(3)]
+                if kinds != [3] or got != [tuple(triple)]:
+                    raise Violation('%s:long-lived:reject' % PROP, '%s: the application refused with %r, PDUs sent %r, '
+                                    'A-ASSOCIATE-RJ fields %r' % (where, tuple(triple), kinds, got), case)
+            else:
+                want = [2, 6] if kind == 'serve' else [2]
+                served = [r['fields'].get(0x0120) for r in dul.sent_msgs()]
+                if kinds != want or served != [7]:
+                    raise Violation('%s:long-lived:serve' % PROP, '%s: the application accepts it; PDUs sent %r (expected %r), '
+                                    'requests answered %r' % (where, kinds, want, served), case)
+            if not dul.killed:
+                raise Violation('%s:long-lived:not-ended' % PROP, '%s: provider not stopped' % where, case)
+    finally:
+        ae.server_close()
+
+
 # ---- requester: scripted peer ------------------------------------------------------------------------
 def make_client():
     from pynetdicom2 import applicationentity, sopclass
@@ -551,7 +601,7 @@ def run(ctx):
                 'or A-RELEASE-RQ arriving before any DIMSE exchange, between two exchanges, inside a half-consumed '
                 'C-FIND response stream and during a multi-fragment C-STORE; leaving request_association normally or '
                 'through 3 exception types / an exception raised while an SCU generator is half consumed; acceptor '
-                'side peer abort/release after 0-3 served requests; 9 loopback cases with a raw-socket peer (incl. normal exit while responses are still in flight); non-trivial = non-default field values or an event '
+                'side peer abort/release after 0-3 served requests; one long-lived entity answering 300-330 associations in a row (refused / served / aborted) each judged as if it were the first; 9 loopback cases with a raw-socket peer (incl. normal exit while responses are still in flight); non-trivial = non-default field values or an event '
                 'in mid-exchange')
     ctx.assumptions = ['provider replaced by vf/fakedul.py (the own handling by the provider of these PDUs is C04/C05)',
                        'a raw-socket scripted peer exercises the real requesting stack over loopback (A-ABORT coalesced with a response and '
@@ -587,6 +637,12 @@ def run(ctx):
             ctx.case(('acc-ev', ev, after), after > 0 or ev[1:] not in ((), (0, 0)), labels=['acceptor-peer-' + ev[0]])
             ctx.check(acceptor_peer_event, ev, after)
 
+    for program in ([('rj', 300, (1, 1, 7)), ('serve', 2, (0, 0, 0)), ('rj', 2, (2, 3, 2))],
+                    [('serve', 150, (0, 0, 0)), ('abort', 150, (0, 0, 0)), ('rj', 3, (1, 2, 1)), ('serve', 1, (0, 0, 0))],
+                    [('abort', 280, (0, 0, 0)), ('rj', 40, (2, 1, 3)), ('serve', 1, (0, 0, 0))] * (3 if ctx.thorough else 1)):
+        ctx.case(('long-lived', program), True, labels=['long-lived-entity'],
+                 sample={'program': [(k, c) for k, c, _ in program]})
+        ctx.check(acceptor_long_lived, program)
     run_loopback(ctx, 5 if ctx.thorough else 1)
     n = 20000 if ctx.thorough else 1500
 
@@ -612,6 +668,8 @@ def replay(case):
     k = case['kind']
     if k == 'acceptor-reject':
         acceptor_reject(tuple(case['triple']))
+    elif k == 'acceptor-long-lived':
+        acceptor_long_lived([(a, b, tuple(c)) for a, b, c in case['program']])
     elif k == 'requester-rejected':
         requester_rejected(tuple(case['triple']))
     elif k == 'requester-peer-event':
